@@ -186,6 +186,9 @@ module.exports = {
     if (spec.kind === 'layout') {
       js = []
       for (let i = 0; i < spec.count; i++) { const code = layoutProgram(rng.fork(i)); js.push({ code, file: rng.bool(0.5) ? rng.pick(G.FILE_NAMES.filter(f => basename(f))) : '/srv/app/layout.js', meta: { kind: 'layout', module: /export default/.test(code) }, config: require('../lib/cfgset').SETS[rng.pick(['FULL', 'COMMENTS', 'RENAMED'])], cfgKey: 'L' + (i % 3), cfgName: 'layout' }) }
+      // size must not matter: one program of the shard is preceded by a generated data table that makes the file larger than
+      // half a megabyte (bundles and generated tables are that big; thresholds on size are a natural place for special cases)
+      if (js.length > 3) { const big = js[3]; const rows = Array.from({ length: 9000 }, (_, k) => `  ['row-${k}', ${k}, 'padding padding padding padding padding'],`).join('\n'); big.code = 'const TABLE = [\n' + rows + '\n]\n' + big.code; big.meta = Object.assign({}, big.meta, { big: true }) }
       // chaining switched on for files that declare no map of their own (the plain map is due), each preceded - in the same
       // process, on the same rewriter - by a transpiled file whose inline map names another source: nothing of the
       // predecessor may show in the successor's map
